@@ -225,6 +225,18 @@ pub fn load() -> Vec<Item> {
             rust_literals(&p, &mut out);
         }
     }
+    // hand-written programs for constructs that neither the repository's texts nor the generators
+    // produce (try as an element of a multi-line literal, map patterns with `as` in arguments, ...);
+    // their expected output was checked by hand against the guide when they were written
+    let mut zoo = vec![];
+    walk(Path::new("/verif/zoo"), "koto", &mut zoo);
+    zoo.sort();
+    for p in zoo {
+        if let Ok(text) = std::fs::read_to_string(&p) {
+            let expected = std::fs::read_to_string(p.with_extension("out")).ok();
+            out.push(Item { name: format!("zoo/{}", p.file_name().map(|n| n.to_string_lossy().to_string()).unwrap_or_default()), text, expected, runnable: true, origin: "zoo" });
+        }
+    }
     // de-duplicate by text
     let mut seen = std::collections::HashSet::new();
     out.retain(|i| seen.insert(crate::core::fnv(i.text.as_bytes())));
